@@ -28,3 +28,39 @@ def call_edit_call(f, arg, key):
     first = f(arg)
     first[key] = first[key] - 1
     return f(arg)
+
+
+def probe(a, b='default'):
+    """a callee with named parameters only (no **kwargs): returns what it received"""
+    return (a, b)
+
+
+def unchanged_by(snapshot, action):
+    """snapshot() before and after action(): True iff equal"""
+    before = snapshot()
+    action()
+    return snapshot() == before
+
+
+def keys_and_ids(d):
+    return [(k, id(v)) for k, v in d.items()]
+
+
+def list_to_dict_after_edit(f, lst, i, new):
+    """f(lst), then replace lst[i] in place, then f(lst) again: the second result"""
+    f(lst)
+    lst[i] = new
+    return f(lst)
+
+
+def after(action, query):
+    """run action(), then return query()"""
+    action()
+    return query()
+
+
+def shift_offset_then_HoRT(refs, species, key, d, T):
+    """edit the offset of the reference object the species was built with,
+    then ask the species: the value after the edit"""
+    refs.offset[key] = refs.offset[key] + d
+    return species.get_HoRT(T=T)
